@@ -475,6 +475,7 @@ func runFetchOp(w *fworld, r *rand.Rand, st *fetchStats, op int, all []iface.IPF
 	var roots []cid.Cid
 	var rootNames []string
 	supplied := 0
+	var jsonLog *iface.JSONLog
 	addRoot := func(c cid.Cid) {
 		roots = append(roots, c)
 		if !c.Defined() {
@@ -501,8 +502,17 @@ func runFetchOp(w *fworld, r *rand.Rand, st *fetchStats, op int, all []iface.IPF
 		if r.Intn(10) == 0 {
 			addRoot(cid.Undef)
 		}
-	case "mh", "json":
+	case "mh":
 		for _, c := range sl.ToJSONLog().Heads {
+			addRoot(c)
+		}
+	case "json":
+		// a caller-supplied head list may be in any order
+		jsonLog = sl.ToJSONLog()
+		if r.Intn(2) == 0 {
+			r.Shuffle(len(jsonLog.Heads), func(a, b int) { jsonLog.Heads[a], jsonLog.Heads[b] = jsonLog.Heads[b], jsonLog.Heads[a] })
+		}
+		for _, c := range jsonLog.Heads {
 			addRoot(c)
 		}
 	case "eh":
@@ -658,7 +668,7 @@ func runFetchOp(w *fworld, r *rand.Rand, st *fetchStats, op int, all []iface.IPF
 			loaded, lerr = ipfslog.NewFromEntryHash(ctx, api, ident, roots[0], &ipfslog.LogOptions{ID: "X", SortFn: fSortFn(sk)},
 				&ipfslog.FetchOptions{Length: lp, Concurrency: conc, Timeout: timeout, ShouldExclude: shouldExclude})
 		case "json":
-			loaded, lerr = ipfslog.NewFromJSON(ctx, api, ident, sl.ToJSONLog(), &ipfslog.LogOptions{SortFn: fSortFn(sk)},
+			loaded, lerr = ipfslog.NewFromJSON(ctx, api, ident, jsonLog, &ipfslog.LogOptions{SortFn: fSortFn(sk)},
 				&entry.FetchOptions{Length: lp, Concurrency: conc, Timeout: timeout})
 		case "ent":
 			loaded, lerr = ipfslog.NewFromEntry(ctx, api, ident, srcEntries, &ipfslog.LogOptions{SortFn: fSortFn(sk)},
